@@ -636,7 +636,7 @@ def gen_model(rng, env=None, kinds=None, template=None, near_miss=None, length=N
 
 VARIANT_KINDS = ['scale', 'same', 'load_value', 'voltage', 'translate', 'rotate', 'drop_loads', 'taper',
                  'segments', 'radius', 'media_form', 'toggle_ground', 'other_ground', 'reattach', 'taper_limits',
-                 'scale_band']
+                 'scale_band', 'swap_wires', 'repeat_option']
 
 
 def variant_model(rng, m, force=None):
@@ -649,7 +649,7 @@ def variant_model(rng, m, force=None):
     how = rng.choice(['scale', 'scale', 'same', 'load_value', 'voltage', 'translate', 'rotate', 'drop_loads',
                       'taper', 'segments', 'radius', 'media_form', 'media_form',
                       'toggle_ground', 'toggle_ground', 'other_ground', 'reattach', 'reattach', 'taper_limits',
-                      'scale_band'])
+                      'scale_band', 'swap_wires', 'repeat_option'])
     if force:
         how = force
     elif any(x == '--taper-wire' for x in v.argv_geo) and rng.random() < 0.4:
@@ -676,6 +676,38 @@ def variant_model(rng, m, force=None):
             sc = rng.choice([0.5, 2.0, 0.25])
             v.argv_geo += ['--geo-scale', _g(sc)]
             v.pool_scale = sc
+    if how == 'swap_wires':
+        # the same option values in another order: two untagged -w options
+        # exchanged (order defines the numbering of wires and pulses)
+        wi = [i for i, x in enumerate(v.argv_geo) if x == '-w']
+        untag = [i for i in wi if len(v.argv_geo[i + 1].split(',')) == 8]
+        pair = None
+        for a_ in untag:
+            for b_ in untag:
+                if a_ < b_ and v.argv_geo[a_ + 1] != v.argv_geo[b_ + 1] \
+                        and v.argv_geo[a_ + 1].split(',')[0] == v.argv_geo[b_ + 1].split(',')[0]:
+                    pair = (a_, b_)
+                    break
+            if pair:
+                break
+        if pair is None and len(untag) >= 2:
+            pair = (untag[0], untag[1])
+        if pair:
+            a_, b_ = pair
+            v.argv_geo[a_ + 1], v.argv_geo[b_ + 1] = v.argv_geo[b_ + 1], v.argv_geo[a_ + 1]
+            v.exact = False
+        else:
+            how = 'same'
+    if how == 'repeat_option':
+        # one repeatable option given twice / once (multiplicity matters)
+        if m.env == 'free':
+            have = [i for i, x in enumerate(v.argv_geo) if x == '--geo-scale']
+            if have:
+                v.argv_geo += ['--geo-scale', v.argv_geo[have[0] + 1]]
+            else:
+                v.argv_geo += ['--geo-scale', '2', '--geo-scale', '0.5']
+        else:
+            v.argv_geo += ['--geo-rotate', '7,0,0,90', '--geo-rotate', '7,0,0,90']
     if how == 'move_middle_wire':
         wi = [i for i, x in enumerate(v.argv_geo) if x == '-w']
         if len(wi) >= 5:
@@ -1207,6 +1239,11 @@ def gen_api_ops(rng, npool, nfar, nnear, maxops):
             op = op + [{'interrupt': int(10 ** rng.uniform(0, 3.4)), 'exc': rng.choice(['kbd', 'mem'])}]
         st.apply(op)
         ops.append(op)
+        if op[0] == 'SET_F' and len(op) == 2 and rng.random() < 0.12:
+            # the same assignment once more (a caller sets the frequency and
+            # a helper it calls sets it again): a no-op that must stay one
+            ops.append(list(op))
+            st.apply(op)
     # make sure the history ends observable
     if not st.computed:
         ops.append(['COMPUTE'])
@@ -1676,6 +1713,8 @@ def floor_plans(base_seed, tier='quick'):
     plans += regime_floor_plans(base_seed, tier)
     plans += twin_floor_plans(base_seed, tier)
     plans += option_floor_plans(base_seed, tier)
+    plans += order_floor_plans(base_seed, tier)
+    plans += minimal_floor_plans(base_seed, tier)
     return plans
 
 
@@ -2000,6 +2039,8 @@ _SIB_BASE = {
     'reattach': dict(envs=['free', 'ideal'], templates=['array_tail', 'zigzag', 'tee_free', 'gnd_star'], kinds=[None]),
     'fuzz': dict(envs=['free', 'ideal', 'real2'], templates=[None], kinds=[None]),
     'scale_band': dict(envs=['free'], templates=['dipole', 'vee', 'two_wires', 'array'], kinds=[[], ['impedance'], ['skin_c']]),
+    'swap_wires': dict(envs=['free', 'ideal'], templates=['two_wires', 'array', 'vee'], kinds=[[], ['impedance'], ['skin_c']]),
+    'repeat_option': dict(envs=['free', 'ideal'], templates=[None], kinds=[None]),
 }
 
 
@@ -2093,6 +2134,8 @@ def fault_floor_plans(base_seed, tier='quick'):
     cases.append(('premature_near_then_compute', [['SET_F', 1], ['NEAR', 0, 'x']] + obs))
     cases.append(('early_report_then_compute', [['NEAR', 0], ['FAR', 0], ['SET_F', 1], ['REPORT_EARLY']] + obs))
     cases.append(('early_misc_then_compute', [['SET_F', 1], ['OBS_MISC', 5], ['OBS_CMDLINE']] + obs))
+    cases.append(('assignment_repeated', [['SET_F', 1], ['SET_F', 1]] + obs))
+    cases.append(('assignment_back_and_forth', [['SET_F', 1], ['SET_F', 0], ['SET_F', 1]] + obs))
     for opk in ('SET_F', 'COMPUTE', 'FAR', 'NEAR'):
         pts = [(at, 'kbd') for at in (1, 4, 40, 400, 2500)] + [(at, 'mem') for at in (2, 9, 90, 900)]
         if opk == 'COMPUTE':
@@ -2362,12 +2405,25 @@ def regime_floor_plans(base_seed, tier='quick'):
     cases = [('free', t, None) for t in FREE_TEMPLATES] + [('ideal', t, None) for t in GND_TEMPLATES] \
         + [('real2', 'monopole', None), ('real3', 'inv_l', None)] \
         + [('free', 'dipole', 0.5), ('free', 'vee', 1.0), ('ideal', 'monopole', 0.5), ('free', 'two_wires', 0.5)]
+    # distributed loads on the whole antenna for the templates that contain
+    # objects without a pulse of their own or several junctions
+    cases += [('free', 'seg1_chain', -1), ('free', 'seg1_chain', -2), ('free', 'star', -1), ('ideal', 'gnd_star', -2),
+              ('free', 'array_tail', -1), ('free', 'zigzag', -2)]
     for i, (env, tpl, length) in enumerate(cases):
         seed = base_seed * 1000003 + 998000 + i
         rng = random.Random(seed)
         kinds = ['insulation'] if length else cyc[i % len(cyc)]
-        # the plain template: a per-tag transformation would open the loop
-        m = gen_model(rng, env=env, kinds=kinds, template=tpl, length=length, transforms=False)
+        if length and length < 0:
+            kinds = [['skin_c'], ['insulation']][-length - 1]
+            length = None
+            for k in range(40):
+                rng = random.Random(seed * 43 + k)
+                m = gen_model(rng, env=env, kinds=kinds, template=tpl, transforms=False)
+                if 'skin_per_tag' not in m.features and 'insulation_per_tag' not in m.features:
+                    break
+        else:
+            # the plain template: a per-tag transformation would open the loop
+            m = gen_model(rng, env=env, kinds=kinds, template=tpl, length=length, transforms=False)
         base = min(max(150.0 / max(m.length, 1.0), 2.0), 900.0)
         mults = (1.0, 1e-4, 8.0, 1e-3, 0.02, 4.0) if not length else (1.0, 8.0, 0.5, 4.0, 2.0, 6.0)
         pool = [float(repr(round(base * x, 6))) for x in mults]
@@ -2504,6 +2560,139 @@ def option_floor_plans(base_seed, tier='quick'):
         c = dict(kind='cli', ops=[_copy_op(o) for o in cops], template=m.template, env=m.env,
                  features=sorted(set(m.features + ['project_frequency_first'])), probes=['project_frequency'],
                  npulses=m.min_pulses() + 2 * len(m.geo), pool=pool[:2])
+        plans.append(dict(version=1, run_seed=seed, tier=tier, floor=True, config='plain',
+                          hist=env_side(rng, False, 'hist'), orac=env_side(rng, False, 'orac'),
+                          disk={}, tasks=[t, c], schedule=[0] * len(ops) + [1] * len(cops)))
+    return plans
+
+
+# ---------------------------------------------------------------- order floor
+
+def order_floor_plans(base_seed, tier='quick'):
+    """Models whose processing order is underdetermined by the input - several
+    junctions, per-tag distributed loads, explicit and permuted tags, several
+    media and sources - in *perturbed* worlds: history and oracle assign
+    opposite hashes and identity numbers to the program's objects, the clock
+    jumps, memory is poisoned.  The other floors run under plain conditions;
+    the random worlds are perturbed in 70 % of the cases but meet such a
+    model only now and then."""
+    plans = []
+    cases = []
+    for tpl, env in (('star', 'free'), ('tee_free', 'free'), ('bent3', 'free'), ('zigzag', 'free'), ('loop', 'free'),
+                     ('gnd_star', 'ideal'), ('tee_gnd', 'ideal'), ('inv_l', 'real2'), ('array_tail', 'free'),
+                     ('mixed', 'free'), ('gnd_fan', 'ideal'), ('seg1_chain', 'free')):
+        for want in ('skin_per_tag', 'insulation_per_tag'):
+            cases.append((tpl, env, want))
+    for i, (tpl, env, want) in enumerate(cases):
+        seed = base_seed * 1000003 + 999800 + i
+        m = None
+        for k in range(40):
+            rng = random.Random(seed * 41 + k)
+            c = gen_model(rng, env=env, kinds=['skin_c' if want.startswith('skin') else 'insulation',
+                                               rng.choice(['impedance', 'rlc', 'trap'])], template=tpl)
+            if want in c.features:
+                m = c
+                break
+        if m is None:
+            m = c
+        if i % 4 < 2:
+            # the distributed load on ONE object only (the first or the last
+            # defined): the junction pulses at its ends belong to the others
+            opt = '--skin-effect-conductivity=' if want.startswith('skin') else '--insulation-load='
+            tagged = [a for a in m.argv_load if a.startswith(opt) and a.count(',') >= (1 if want.startswith('skin') else 2)]
+            if tagged:
+                etags = [g['etag'] for g in m.geo]
+                keep = tagged[0].rsplit(',', 1)[0] + ',%d' % (min(etags) if i % 8 < 4 else max(etags))
+                m.argv_load = [a for a in m.argv_load if not a.startswith(opt)] + [keep]
+        api = i % 2 == 0
+        pool, probes = gen_pool(rng, m, k=2)
+        if api:
+            ops = [['COMPUTE'], ['OBS_NUM'], ['OBS_REPORT', []], ['OBS_CMDLINE'], ['SET_F', 1], ['COMPUTE'],
+                   ['FAR', 0], ['OBS_NUM'], ['OBS_REPORT', ['far-field']], ['OBS_MISC', 6], ['OBS_CMDLINE']]
+            t = dict(kind='api', builder='cli', argv=m.argv(), pool=pool[:2], fars=[gen_far(rng)], nears=[],
+                     ops=ops, template=m.template, env=m.env, features=sorted(set(m.features + ['order_floor'])),
+                     probes=probes, npulses=m.min_pulses() + 2 * len(m.geo), drop_results=bool(i % 4))
+        else:
+            argv = ['-f', repr(pool[0])] + m.argv() + field_args(rng, m, force=['far-field']) \
+                + ['--output-cmdline', 'ord.txt']
+            inc = float(repr(round(pool[1] - pool[0], 6))) or 0.1
+            ops = [['RUN', argv], ['SWEEP', argv, inc, 2, i % 4], ['RUN', argv]]
+            t = dict(kind='cli', ops=[_copy_op(o) for o in ops], template=m.template, env=m.env,
+                     features=sorted(set(m.features + ['order_floor'])), probes=probes,
+                     npulses=m.min_pulses() + 2 * len(m.geo), pool=list(pool))
+        plans.append(dict(version=1, run_seed=seed, tier=tier, floor=True, config='perturbed',
+                          hist=env_side(rng, True, 'hist'), orac=env_side(rng, True, 'orac'),
+                          disk={}, tasks=[t], schedule=[0] * len(t['ops'])))
+    return plans
+
+
+# -------------------------------------------------------------- minimal floor
+
+def minimal_model(rng, kind, env):
+    """The smallest valid models: one or two current pulses.  Views and
+    contiguity short-cuts of numpy, squeezed dimensions and 'no copy needed'
+    paths behave differently for arrays of length one."""
+    m = Model()
+    r = rng.choice([0.001, 0.002])
+    L = rng.choice([10.0, 20.0])
+    h = 0.0 if env == 'free' else rng.choice([8.0, 10.0])
+    a = []
+
+    def w(nseg, p1, p2):
+        o, v = _wire(nseg, p1, p2, r)
+        a.extend([o, v])
+        m.geo.append(dict(kind='wire', nseg=nseg, r=r, tag=None, etag=len(m.geo) + 1,
+                          p1=tuple(float(x) for x in p1), p2=tuple(float(x) for x in p2)))
+        m.radii.append(r)
+    if kind == 'dipole2':           # 2 segments, 1 pulse
+        w(2, (-L / 2, 0, h), (L / 2, 0, h))
+    elif kind == 'dipole3':         # 3 segments, 2 pulses
+        w(3, (-L / 2, 0, h), (L / 2, 0, h))
+    elif kind == 'joined11':        # two 1-segment wires, 1 junction pulse
+        w(1, (-L / 2, 0, h), (0, 0, h))
+        w(1, (0, 0, h), (L / 2, 0, h + 1.0))
+    elif kind == 'monopole1':       # 1 segment on the ground plane, 1 pulse
+        w(1, (0, 0, 0), (0, 0, L / 4))
+    else:                           # 'monopole2': 2 pulses
+        w(2, (0, 0, 0), (0, 0, L / 4))
+    m.template = 'minimal_' + kind
+    m.length = L
+    m.argv_geo = a
+    m.exact = False
+    gen_env(rng, m, env)
+    m.argv_src = ['--excitation-pulse=1']
+    m.argv_load = rng.choice([[], ['--load=50+10j', '--attach-load=1,1'], ['--skin-effect-conductivity=1e6'],
+                              ['--rlc-load=5,1e-6,1e-10', '--attach-load=1,1']])
+    m.features.append('minimal_model')
+    return m
+
+
+def minimal_floor_plans(base_seed, tier='quick'):
+    plans = []
+    cases = [('dipole2', 'free'), ('dipole2', 'ideal'), ('dipole2', 'real2'), ('dipole3', 'free'), ('joined11', 'free'),
+             ('joined11', 'ideal'), ('monopole1', 'ideal'), ('monopole1', 'real1'), ('monopole2', 'ideal'),
+             ('dipole3', 'ideal')]
+    for i, (kind, env) in enumerate(cases):
+        seed = base_seed * 1000003 + 999900 + i
+        rng = random.Random(seed)
+        m = minimal_model(rng, kind, env)
+        base = 150.0 / m.length
+        pool = [float(repr(round(base * x, 4))) for x in (1.0, 1.02, 0.5, 2.0)]
+        near = gen_near(rng, m)
+        ops = [['COMPUTE'], ['FAR', 0], ['OBS_NUM'], ['FAR', 0], ['OBS_NUM'], ['NEAR', 0], ['OBS_NUM'], ['NEAR', 0],
+               ['FAR', 1], ['OBS_NUM'], ['OBS_REPORT', ['far-field', 'near-field']], ['COMPUTE'], ['OBS_NUM']]
+        for k in (1, 2, 3, 0):
+            ops += [['SET_F', k], ['COMPUTE'], ['FAR', 0], ['NEAR', 0], ['OBS_NUM']]
+        ops += [['OBS_REPORT', ['far-field', 'near-field', 'far-field-absolute']], ['OBS_CMDLINE'], ['OBS_MISC', 2]]
+        t = dict(kind='api', builder='cli', argv=m.argv(), pool=pool, fars=[gen_far(rng), gen_far(rng)], nears=[near],
+                 ops=ops, template=m.template, env=m.env, features=sorted(set(m.features)), probes=[],
+                 npulses=4, drop_results=bool(i % 2))
+        argv = ['-f', repr(pool[0])] + m.argv() + field_args(rng, m, force=['far-field', 'near-field']) \
+            + ['--output-cmdline', 'min.txt']
+        cops = [['SWEEP', list(argv), float(repr(round(pool[1] - pool[0], 6))), 3, i % 4], ['RUN', list(argv)],
+                ['RUN', list(argv)]]
+        c = dict(kind='cli', ops=[_copy_op(o) for o in cops], template=m.template, env=m.env,
+                 features=sorted(set(m.features)), probes=[], npulses=4, pool=pool[:2])
         plans.append(dict(version=1, run_seed=seed, tier=tier, floor=True, config='plain',
                           hist=env_side(rng, False, 'hist'), orac=env_side(rng, False, 'orac'),
                           disk={}, tasks=[t, c], schedule=[0] * len(ops) + [1] * len(cops)))
